@@ -24,6 +24,17 @@ def build(c):
         x0, y0 = cx + c["dx"] * 30000.0, cy + c["dy"] * 30000.0
         dst = GeoBox.from_bbox(BoundingBox(x0, y0, x0 + n * px, y0 + n * px, f"epsg:{d}"), resolution=px, tight=True)
         return src, dst
+    if c["pair"].endswith("pole"):
+        from affine import Affine
+
+        s, d = c["pair"][:-4].split(">")
+        south = s == "3031"
+        src = GeoBox((80, 80), Affine(10000.0, 0, -400000.0, 0, -10000.0, 400000.0), f"epsg:{s}")        # 800 km square centred on the pole (to ~86.4 degrees)
+        n, px = {"same": (24, 0.05), "coarser": (12, 0.2)}[c["zoom"]]
+        top = 89.9 - 0.6 * c["dy"]                                                                       # lon/lat window: 40 .. 96 longitudes wide, next to the pole
+        lat_top = -(top - n * px) if south else top
+        dst = GeoBox((n, 2 * n), Affine(px * 1.0, 0, -170.0 + 90.0 * (c["dx"] + 1), 0, -px, lat_top), "epsg:4326")
+        return src, dst
     if c["pair"].endswith("big"):
         s, d = c["pair"][:-3].split(">")
         sbox, sshape = ((-3000000, -4000000, 1000000, -500000), (90, 90)) if s == "3575" else ((-20, 35, 40, 70), (70, 120))
@@ -163,8 +174,8 @@ def run_cross(ctx):
     res, cases = ctx.model_check("warp/CrossGen.tla", "CrossGen.cfg", emit=True, timeout=600)
     cases.sort(key=lambda c: json.dumps(c, sort_keys=True))
     ctx.extra["cross_crs_cases_total"] = len(cases)
-    big = [c for c in cases if c["pair"].endswith(("big", "polar"))]
-    cases = ctx.subsample([c for c in cases if not c["pair"].endswith(("big", "polar"))], 600 if ctx.quick() else 10 ** 6) + big
+    big = [c for c in cases if c["pair"].endswith(("big", "polar", "pole"))]
+    cases = ctx.subsample([c for c in cases if not c["pair"].endswith(("big", "polar", "pole"))], 600 if ctx.quick() else 10 ** 6) + big
     events = ctx.pmap(execute, cases)
     verdicts = _validate(ctx, events)
     for ev, v in zip(events, verdicts):
